@@ -2,8 +2,8 @@ package main
 
 import (
 	"fmt"
-	"reflect"
 	"go/types"
+	"reflect"
 
 	"golang.org/x/tools/go/ssa"
 )
@@ -44,9 +44,10 @@ type PtrV struct {
 }
 
 // IfaceV is an interface value.  Exactly one of the following shapes:
-//   definitely nil:  Nil == true
-//   known dynamic:   Dyn != nil (DynT its type), Nil optional
-//   opaque:          Opaque != "" (identity), Nil optional symbolic
+//
+//	definitely nil:  Nil == true
+//	known dynamic:   Dyn != nil (DynT its type), Nil optional
+//	opaque:          Opaque != "" (identity), Nil optional symbolic
 type IfaceV struct {
 	IdT    *Term // identity as a term (BV32) for values merged from different opaque identities
 	Nil    *Term
@@ -154,6 +155,42 @@ func (x *Exec) funcLeaves(v Value, g *Term, out []funcLeaf) []funcLeaf {
 		return x.funcLeaves(u.B, x.b.And(g, x.b.Not(u.C)), out)
 	}
 	return append(out, funcLeaf{g, v})
+}
+
+// GhostRecvV: the result of asserting an opaque, ghost-governed interface value
+// (the user's Memory / IO) to a concrete type of the module.  Only method calls
+// are defined on it; they go through the interface call rule of the original.
+type GhostRecvV struct {
+	Iface *IfaceV
+	T     types.Type
+}
+
+// degradeGhostRecv: an arbitrary value of the asserted type (slice types only).
+func (x *Exec) degradeGhostRecv(g *GhostRecvV) Value {
+	if x.degraded == nil {
+		x.degraded = map[*GhostRecvV]Value{}
+	}
+	if v, ok := x.degraded[g]; ok {
+		return v
+	}
+	st, ok := g.T.Underlying().(*types.Slice)
+	if !ok {
+		return nil
+	}
+	es := sortOf(st.Elem())
+	if es == nil {
+		return nil
+	}
+	b := x.b
+	x.seq++
+	name := fmt.Sprintf("asserted%d", x.seq)
+	o := x.newObj(name, nil)
+	x.pendingObjs[o] = b.Var(name+"_arr", Arr(BV(64), es))
+	ln, cp := b.Var(name+"_len", BV(64)), b.Var(name+"_cap", BV(64))
+	x.assume(b.AndN(b.Cmp("bvsle", b.Const(64, 0), ln), b.Cmp("bvsle", ln, cp), b.Cmp("bvsle", cp, b.Const(64, 1<<40))))
+	v := &SliceV{Obj: o, Off: b.Const(64, 0), Len: ln, Cap: cp}
+	x.degraded[g] = v
+	return v
 }
 
 // StrV: a string; Known strings carry their Go value.
@@ -408,6 +445,19 @@ func (x *Exec) iteV(c *Term, a, bb Value) Value {
 		return &FuncIteV{C: c, A: a, B: bb}
 	}
 	if a != nil && bb != nil && reflect.TypeOf(a) != reflect.TypeOf(bb) {
+		// a ghost-governed receiver that is stored somewhere and merged with an
+		// ordinary value (a cached copy of the user's memory …) loses its tie to
+		// the interface rule: from here on it is just some value of its type
+		if g, ok := a.(*GhostRecvV); ok {
+			if d := x.degradeGhostRecv(g); d != nil {
+				return x.iteV(c, d, bb)
+			}
+		}
+		if g, ok := bb.(*GhostRecvV); ok {
+			if d := x.degradeGhostRecv(g); d != nil {
+				return x.iteV(c, a, d)
+			}
+		}
 		unsupported("merge of values of different kinds (%T, %T): e.g. a non-constant function value", a, bb)
 	}
 	switch p := a.(type) {
@@ -551,6 +601,11 @@ func (x *Exec) iteV(c *Term, a, bb Value) Value {
 		unsupported("merge of different function values")
 	case *OpaqueV:
 		return p
+	case *GhostRecvV:
+		if q := bb.(*GhostRecvV); q.Iface == p.Iface || q.Iface.Opaque == p.Iface.Opaque {
+			return p
+		}
+		unsupported("merge of receivers asserted from different interface values")
 	case nil:
 		return nil
 	}
